@@ -101,6 +101,13 @@ theorem ioEvent_cstep (S : Scripts) (rh : HookFn) (hrh : HookOK rh) (w : W) (e :
     · split
       · exact CStep.refl w
       · exact Step.toC (removeInteractive_step rh hrh _ _ _)
+  | hup client =>
+    simp only [ioEvent]
+    split
+    · exact CStep.refl w
+    · split
+      · exact CStep.refl w
+      · exact Step.toC (removeInteractive_step rh hrh _ _ _)
   | console text =>
     simp only [ioEvent]
     have hs := hc text rfl
